@@ -167,3 +167,121 @@ impl ReportHistory {
         self.client.reports.last.as_ref()
     }
 }
+
+/// A real net report client doing QUIC address discovery over a caller-owned QUIC endpoint,
+/// whose local socket can be replaced underneath the kept QAD connection.
+///
+/// Everything here only wires real components together (the [`Client`], its kept QAD
+/// connection and that connection's observer); no probe logic is re-implemented.
+#[cfg(feature = "test-utils")]
+#[derive(Debug)]
+pub struct QadScenario {
+    client: Client,
+    ep: noq::Endpoint,
+    pending: Option<n0_watcher::Direct<Option<super::reportgen::QadProbeReport>>>,
+}
+
+#[cfg(feature = "test-utils")]
+impl QadScenario {
+    /// Creates a client for `relay_map` that only runs QAD IPv4 probes (no HTTPS probes, no
+    /// captive portal check), sending from a fresh socket on 127.0.0.1.
+    pub fn new(relay_map: RelayMap) -> std::io::Result<Self> {
+        let ep = noq::Endpoint::client(SocketAddr::new(std::net::Ipv4Addr::LOCALHOST.into(), 0))?;
+        let quic_config = super::QuicConfig {
+            ep: ep.clone(),
+            client_config: iroh_relay::tls::make_dangerous_client_config(),
+            ipv4: true,
+            ipv6: false,
+        };
+        let tls_config = crate::tls::CaTlsConfig::insecure_skip_verify()
+            .client_config(crate::tls::default_provider())
+            .expect("infallible");
+        let opts = Options::new(tls_config)
+            .quic_config(Some(quic_config))
+            .net_report_config(super::NetReportConfig::minimal());
+        let client = Client::new(
+            crate::dns::DnsResolver::new(),
+            relay_map,
+            opts,
+            Default::default(),
+        );
+        Ok(Self {
+            client,
+            ep,
+            pending: None,
+        })
+    }
+
+    /// The address of the socket the QUIC endpoint currently sends from.
+    pub fn local_addr(&self) -> std::io::Result<SocketAddr> {
+        self.ep.local_addr()
+    }
+
+    /// Runs the real `Client::get_report` (IPv4 only).
+    pub async fn get_report(&mut self, is_major: bool) -> Report {
+        self.client
+            .get_report(
+                super::IfStateDetails {
+                    have_v4: true,
+                    have_v6: false,
+                },
+                is_major,
+                tokio_util::sync::CancellationToken::new(),
+            )
+            .await
+    }
+
+    /// Whether a QAD IPv4 connection is currently kept.
+    pub fn has_v4_conn(&self) -> bool {
+        self.client.qad_conns.v4.is_some()
+    }
+
+    /// The address carried by the report the kept connection's observer currently holds.
+    pub fn published_v4(&self) -> Option<SocketAddr> {
+        let (_, conn) = self.client.qad_conns.v4.as_ref()?;
+        conn.observer.get().map(|r| r.addr)
+    }
+
+    /// Replaces the endpoint's socket by a fresh one on 127.0.0.1 and pings the kept QAD
+    /// connection (if any) so that the relay observes the new address.  Returns the new
+    /// local address.
+    pub fn rebind(&mut self) -> std::io::Result<SocketAddr> {
+        let socket = std::net::UdpSocket::bind((std::net::Ipv4Addr::LOCALHOST, 0))?;
+        let addr = socket.local_addr()?;
+        self.pending = self
+            .client
+            .qad_conns
+            .v4
+            .as_ref()
+            .map(|(_, conn)| conn.observer.watch());
+        self.ep.rebind(socket)?;
+        if let Some((_, conn)) = self.client.qad_conns.v4.as_ref()
+            && let Some(path) = conn.conn.path(noq_proto::PathId::ZERO)
+        {
+            path.ping().ok();
+        }
+        Ok(addr)
+    }
+
+    /// Waits (bounded) for the kept connection's observer to publish a report after the last
+    /// [`Self::rebind`]; returns the address that report carries.
+    pub async fn wait_published(&mut self, timeout: Duration) -> Option<SocketAddr> {
+        use n0_watcher::Watcher as _;
+        let mut watcher = self.pending.take()?;
+        let res = n0_future::time::timeout(timeout, watcher.updated()).await;
+        match res {
+            Ok(Ok(Some(report))) => Some(report.addr),
+            _ => None,
+        }
+    }
+
+    /// Drops the client and waits for the QUIC endpoint to become idle.
+    pub async fn shutdown(self) {
+        let Self { client, ep, .. } = self;
+        drop(client);
+        ep.close(0u32.into(), b"done");
+        n0_future::time::timeout(Duration::from_secs(2), ep.wait_idle())
+            .await
+            .ok();
+    }
+}
